@@ -26,7 +26,8 @@ LEVEL_ASSUMPTIONS = [
     "the harness' compiled per-rule counter is validated against the "
     "plain-Python oracle on >= 2000 sampled plans per setting in every run"]
 _REQUIRED = {"exhaustive_plans": 2_985_984, "feasible_plans_confirmed": 1,
-            "random_plans": 1000, "consistent_with_rule_violation": 200,
+            "many_days_or_teams_plans": 20, "random_plans": 1000,
+            "consistent_with_rule_violation": 200,
             "bye_consistent_plans": 100,
             "njit_oracle_cross_checked": 2000}
 
@@ -449,6 +450,14 @@ def random_shard(ctx, count):
     for it in range(count):
         n = int(rng.choice([2, 4, 4, 6, 6, 8, 10, 12]))
         rounds = int(rng.choice([1, 2, 2, 3]))
+        if it % 9 == 4:
+            # many days / many teams: day indices and team ids cross the
+            # int8 / uint8 limits (127/128, 255/256) - `rounds` is a public
+            # parameter of the instance
+            n, rounds = [(4, 42), (4, 43), (4, 44), (4, 85), (4, 86),
+                         (4, 100), (6, 26), (6, 52), (8, 19), (40, 4),
+                         (126, 1), (128, 1), (64, 3)][int(rng.integers(13))]
+            ctx.count("many_days_or_teams_plans")
         cfg = random_cfg(rng, n, rounds)
         D = (n - 1) * rounds
         kind = it % 8
